@@ -1140,6 +1140,9 @@ def corpus():
                calls=(("copy", v, (("ig", (4,)), ("cv", 3, cv))), ("copy", v, ()), ("copyto", v, old, ()))),
           dict(src=T, dst=T, opts=(), calls=(("copyto", ("st", (("i", 0), ("x", b""), ("i", 3), ("x", b"d"))), old, ()),
                                              ("pure", ("st", (("i", 0), ("x", b""), ("i", 3), ("x", b"d"))), old)))]
+    # the replay of the known finding C20:copy:zero-skip (known_findings.json), verbatim
+    Z1 = mkstruct(None, (1, True, I_))
+    cs.append(dict(src=Z1, dst=Z1, opts=(), calls=(("copyto", ("st", (("i", 0),)), ("st", (("i", 9),)), ()),)))
     for x in cs:
         x["fam"] = "corpus"
     return cs
@@ -1210,6 +1213,7 @@ def run_indices(binary, args, n, timeout=600):
 def run_batch(c, cases, tag="b", conc=True):
     text = "".join(sx_case(cs) + "\n" for cs in cases)
     model = c.run_model("copier", text)
+    model_nz = c.run_model("copier-nozs", text)      # repaired variant: no zero-skip (known finding C20:copy:zero-skip)
     path = os.path.join(c.tmp, "cases_gen_%s.go" % tag)
     open(path, "w").write(go_file(cases))
     binary, log = c.build_harness(pkgs=["c20"], extra_overlay={GEN_PATH: path})
@@ -1220,13 +1224,38 @@ def run_batch(c, cases, tag="b", conc=True):
         cl, crashes_c = run_indices(binary, ["conc"], len(cases))
     else:
         cl, crashes_c = [None] * len(cases), {}
-    return dict(model=model, impl=impl, conc=cl, crashes=crashes_c, crashes_seq=crashes_s, binary=binary)
+    return dict(model=model, model_nz=model_nz, impl=impl, conc=cl, crashes=crashes_c, crashes_seq=crashes_s, binary=binary)
 
 
 # ------------------------------------------------------------------ classification of a disagreement
-def classify(cs, mline, iline, shared=False):
+def zero_skip_calls_model(mline, zline):
+    """indices of the calls whose result depends on the zero-skip (model as-is != repaired model variant)"""
+    if not mline or not zline or mline == "badcase" or zline == "badcase":
+        return []
+    a, b = mline.split(" | "), zline.split(" | ")
+    if len(a) != len(b) or a[0] != b[0]:
+        return []
+    return [j - 1 for j in range(1, len(a)) if a[j] != b[j]]
+
+
+def merge_model(mline, zline, iline):
+    """known finding C20:copy:zero-skip: for a call whose result depends on the zero-skip accept EITHER the
+    model of the code as it is (old value kept) OR the repaired variant (the source's zero value copied):
+    the expected line takes, call by call, the variant the implementation shows; everything else is the model."""
+    if not iline or not mline or not zline:
+        return mline
+    a, b, x = mline.split(" | "), zline.split(" | "), iline.split(" | ")
+    if not (len(a) == len(b) == len(x)) or a[0] != b[0]:
+        return mline
+    return " | ".join([a[0]] + [b[j] if (a[j] != b[j] and x[j] == b[j]) else a[j] for j in range(1, len(a))])
+
+
+def classify(cs, mline, iline, shared=False, zline=None):
     """coarse signature of the first difference between the model's and the implementation's line
-    (None when they agree).  shared: iline comes from the concurrent pass."""
+    (None when they agree).  shared: iline comes from the concurrent pass.  zline: the repaired
+    (no zero-skip) model variant, accepted call by call as an alternative (see merge_model)."""
+    if zline is not None:
+        mline = merge_model(mline, zline, iline)
     if iline == mline:
         return None
     if iline in ("NOTRUN", "nocase"):
@@ -1380,8 +1409,8 @@ def minimise(c, cs, sig, shared, stats):
         stats["minimise_rounds"] = stats.get("minimise_rounds", 0) + 1
         lines = res["conc"] if shared else res["impl"]
         good = []
-        for (s, cand), m, a in zip(cands, res["model"], lines):
-            if classify(cand, m, a, shared) == sig:
+        for (s, cand), m, z, a in zip(cands, res["model"], res["model_nz"], lines):
+            if classify(cand, m, a, shared, z) == sig:
                 good.append((s, cand))
             elif len(s - K) == 1:
                 bad.update(s - K)
@@ -1445,15 +1474,37 @@ HOW = ("save the Go snippet as harness/c20/cases_gen.go (after the header of a g
 
 def process_batch(c, cases, res, stats, budget):
     """compare the three streams case by case; report (minimised) disagreements"""
-    model, impl, conc = res["model"], res["impl"], res["conc"]
+    model, model_nz, impl, conc = res["model"], res["model_nz"], res["impl"], res["conc"]
     agree = 0
     for i, cs in enumerate(cases):
         m = model[i] if i < len(model) else None
+        z = model_nz[i] if i < len(model_nz) else None
         a = impl[i] if i < len(impl) else None
         b = conc[i] if i < len(conc) else None
+        # the known finding: a call whose result depends on the zero-skip, and the implementation keeps the old value
+        zs = zero_skip_calls_model(m, z)
+        if zs and a and len(a.split(" | ")) == len(m.split(" | ")):
+            ap, mp, zp = a.split(" | "), m.split(" | "), z.split(" | ")
+            kept = [j for j in zs if ap[j + 1] == mp[j + 1] and mp[j + 1].startswith("ok ")]
+            rep = [j for j in zs if ap[j + 1] == zp[j + 1]]
+            stats["zero_skip_calls_old_value_kept"] = stats.get("zero_skip_calls_old_value_kept", 0) + len(kept)
+            stats["zero_skip_calls_repaired_behaviour"] = stats.get("zero_skip_calls_repaired_behaviour", 0) + len(rep)
+            if kept and not budget.get("zero_skip_reported"):
+                budget["zero_skip_reported"] = True
+                one = dict(cs, calls=(cs["calls"][kept[0]],))
+                c.report("C20:copy:zero-skip",
+                         "CopyTo into a used destination keeps the old value of a matched field whose source value is the zero value "
+                         "(e.g. src {A:0} into dst {A:9} leaves 9)",
+                         {"kind": "program", "case": sx_case(one), "go": go_snippet(one), "implementation": " | ".join([ap[0], ap[kept[0] + 1]]),
+                          "model": " | ".join([mp[0], mp[kept[0] + 1]]), "repaired_model": " | ".join([zp[0], zp[kept[0] + 1]]),
+                          "from_case": sx_case(cs), "how": HOW})
+        m = merge_model(m, z, a)
         sig, shared, line = classify(cs, m, a), False, a
         if sig is None:
-            sig, shared, line = classify(cs, m, b, True), True, b
+            mb = merge_model(model[i] if i < len(model) else None, z, b)
+            sig, shared, line = classify(cs, mb, b, True), True, b
+            if sig is not None:
+                m = mb
         if sig is None:
             agree += 1
             continue
@@ -1468,7 +1519,8 @@ def process_batch(c, cases, res, stats, budget):
             try:
                 for attempt in range(4 if sig.endswith(":crash") or sig.endswith(":diverge") else 1):
                     r2 = run_batch(c, [small], tag="rep", conc=shared)
-                    m2, l2 = r2["model"][0], (r2["conc"] if shared else r2["impl"])[0]
+                    l2 = (r2["conc"] if shared else r2["impl"])[0]
+                    m2 = merge_model(r2["model"][0], r2["model_nz"][0], l2)
                     if classify(small, m2, l2, shared) == sig:
                         m, line = m2, l2
                         if shared and 0 in r2["crashes"]:
@@ -1562,7 +1614,10 @@ def main(tier):
         assumptions=["the reflected universe of CopierModel.v: no embedded fields, no struct tags, one package, defined types are named basic kinds and structs; "
                      "chan/array/func/interface values are opaque; converters are pure functions of a five-function language",
                      "package reflect (TypeOf, Kind, Field, Set, CanSet, IsZero, Interface, type identity) behaves as modelled (cross-checked by the differential run)",
-                     "the concurrent pass is a stress test (8 goroutines x 3 rounds per call), not an exhaustive interleaving search"],
+                     "the concurrent pass is a stress test (8 goroutines x 3 rounds per call), not an exhaustive interleaving search",
+                     "known finding C20:copy:zero-skip: for calls whose result depends on the zero-skip (model as-is != model variant "
+                     "`copier-nozs`, at any nesting depth) either answer is accepted call by call; while the implementation keeps the old "
+                     "value the finding is reported once (KNOWN-FINDING); every other difference is a violation"],
         trusted_base=["Coq 8.16.1 kernel + vm_compute (no native_compute)", "no axioms (Print Assumptions: closed under the global context)",
                       "extraction: ExtrOcamlBasic only, no Extract Constant; cross-checked against vm_compute on <= 60 cases per run",
                       "OCaml driver ocaml/drv_copier.ml, Go harness harness/c20 (runner + canonical printer), checks/c20.py (case and Go source generator)"])
